@@ -288,7 +288,7 @@ DIM_FLAVOURS = {
     'tiny': 'units', 'huge': 'units',
     # containers: tuple-valued descriptors and tuple index arguments; vector-valued (2-D ndarray) descriptors next to the
     # scalar ones; int instead of str labels; descriptor dictionaries written in the reverse key order
-    'tuple': 'containers', 'vec2d': 'containers', 'intlab': 'containers', 'revkeys': 'containers',
+    'tuple': 'containers', 'vec2d': 'containers', 'intlab': 'containers', 'revkeys': 'containers', 'incarr': 'containers',
     # repeated + interleaved descriptor values, first-appearance order != sorted order, unbalanced group sizes
     'unbal': 'groups',
     # sizes: a single RDM / a single channel / a single time point; more items than the base pool (7 RDMs, 8 x 11 for inference,
@@ -326,6 +326,16 @@ def _intlab(x):
     return x
 
 
+def _inclab(x):
+    """flavour 'incarr': condition / subject labels as numbers that INCREASE along the stored order ('c3', 'c0', 'c4', .. -> 1, 4,
+    7, ..; 's2', 's0', .. -> 2, 5, ..), held in numpy arrays: a strictly increasing 1-D ndarray descriptor"""
+    if isinstance(x, str) and x in CONDS:
+        return 3 * CONDS.index(x) + 1
+    if isinstance(x, str) and x in SUBJ:
+        return 3 * SUBJ.index(x) + 2
+    return x
+
+
 class Pool:
     def __init__(self, seed, flavour, tmp=None):
         self.rs = np.random.RandomState(seed)
@@ -339,6 +349,8 @@ class Pool:
     def dvals(self, vals):
         if self.flavour == 'intlab':
             vals = [_intlab(x) for x in vals]
+        if self.flavour == 'incarr':
+            return np.array([_inclab(x) for x in vals])
         if self.flavour == 'array':
             return np.array(vals)
         if self.flavour == 'tuple':
@@ -728,18 +740,19 @@ TUPLE_ARGS = ('idx', 'value', 'new_order', 'indices', 'pattern_idx', 'theta', 'c
               'category_idxs', 'category_1_idxs', 'category_2_idxs', 'all_patterns', 'p')
 
 
-def _map_labels(o, depth=0):
-    """flavour 'intlab': the label VALUES inside a plain argument ('c3' -> 3); names of descriptors are not of that form"""
+def _map_labels(o, depth=0, f=None):
+    """flavour 'intlab' / 'incarr': the label VALUES inside a plain argument ('c3' -> 3); names of descriptors are not of that form"""
+    f = f or _intlab
     if isinstance(o, str):
-        return _intlab(o)
+        return f(o)
     if depth > 3:
         return o
     if isinstance(o, (list, tuple)):
-        return type(o)(_map_labels(x, depth + 1) for x in o)
+        return type(o)(_map_labels(x, depth + 1, f) for x in o)
     if isinstance(o, dict):
-        return {k: _map_labels(x, depth + 1) for k, x in o.items()}
-    if isinstance(o, np.ndarray) and o.dtype.kind == 'U' and o.size and all(_intlab(x) is not x for x in o.ravel().tolist()):
-        return np.array([_intlab(x) for x in o.ravel().tolist()]).reshape(o.shape)
+        return {k: _map_labels(x, depth + 1, f) for k, x in o.items()}
+    if isinstance(o, np.ndarray) and o.dtype.kind == 'U' and o.size and all(f(x) is not x for x in o.ravel().tolist()):
+        return np.array([f(x) for x in o.ravel().tolist()]).reshape(o.shape)
     return o
 
 
@@ -769,6 +782,8 @@ def _dim_args(P, args):
                 args[n] = tuple(a)
         elif fl == 'intlab':
             args[n] = _map_labels(a)
+        elif fl == 'incarr':
+            args[n] = _map_labels(a, f=_inclab)
 
 
 SPECS = {}
